@@ -15,7 +15,7 @@ CHECKS = {
    text="Every AST with <= 2 (thorough 3) infix nodes over all 32 built-in infix operators in every shape, every AST with <= 3 operator nodes over 15 representative infix operators plus `not OP`, prefix, postfix, conditional, call, list, map and statement chains, printed by the model printer (minimal and full parentheses), and every token sequence of <= 5 (6) tokens the reference parser accepts: the engine must return exactly the model's AST. The model's operator table is the documented one.",
    note="Grouping decisions are pairwise, so 3 nested nodes cover every outer/middle/inner combination; larger expressions are not enumerated. The greedy reading of the optional ';' is assumed.", design="§4 C02"),
  "C05": dict(technique="bounded exhaustive enumeration of token sequences, fragment strings and single-edit corruptions, judged by a reference recogniser (model); reject-side agreement",
-   text="Every sequence of <= 5 (6) tokens over 28 spellings (space-separated and glued), <= 6 (8) over a 15-spelling delimiter/separator sub-alphabet, every string of <= 4 (5) fragments, and every single-token / single-character corruption of the valid program set: whatever the reference grammar rejects the engine must reject.",
+   text="Every sequence of <= 5 (6) tokens over 28 spellings (space-separated and glued), <= 6 (7) over a 15-spelling delimiter/separator sub-alphabet, every string of <= 4 (5) fragments, and every single-token / single-character corruption of the valid program set: whatever the reference grammar rejects the engine must reject.",
    note="Inputs longer than the bound and corruptions of distance > 1 are not enumerated; the reference grammar is lenient exactly where the property is (optional ';', one trailing comma in list/map).", design="§4 C05"),
  "C11": dict(technique="bounded exhaustive enumeration of layouts (whitespace at every token boundary, redundant parentheses at every subexpression) of an enumerated program set; metamorphic AST equality",
    text="For every program of the shared tree set: every token boundary x every whitespace string of the tier, all boundaries at once, leading/trailing; every subexpression wrapped in 1..3 redundant pairs and every pair of subexpressions wrapped once. The AST must equal that of the original text.",
@@ -57,7 +57,7 @@ CHECKS = {
    text="All histories of <= 3 (4) operations over {parse, execute on fresh context, exec on long-lived context A / B} x 18 programs (no de-duplication: hidden state must not be merged away), every single operation and ordered pair as the first calls of a fresh process, and ~4000 histories with one register_infix_op at every position (fresh process each): every call's result and context equal the same call made alone, A and B never interact, the registry snapshot never changes under parse/exec.",
    note="Depth 3 (4); leakage needing more calls (a cache with larger capacity) is out of bound; concurrent isolation is covered by the C13 explorer's workloads.", design="§4 C16"),
  "C13": dict(technique="stateless preemption-bounded exploration (CHESS-style iterative context bounding) of real threads under a controlled baton scheduler, one fresh process per schedule; brute-force linearizability against all sequential orders",
-   text="11 workloads of 2-3 real threads (first use x2 / x3, first use vs override of a built-in, vs new infix operator, vs registrations as first calls, concurrent re-registration, prefix/postfix registration, isolated contexts) run under a scheduler that owns every choice: scheduling points at every Mutex::lock, OnceCell::get_or_init, init stage, thread start/end; all schedules with <= 3 (5) preemptions for 2 threads and <= 1 (2) for 3 threads; per-thread results must equal some sequential order of the calls (orders executed in fresh processes), no panic, no deadlock; replay divergence and uncontrolled blocking are machinery errors.",
+   text="11 workloads of 2-3 real threads (first use x2 / x3, first use vs override of a built-in, vs new infix operator, vs registrations as first calls, concurrent re-registration, prefix/postfix registration, isolated contexts) run under a scheduler that owns every choice: scheduling points at every Mutex::lock, OnceCell::get_or_init, init stage, thread start/end; all schedules with <= 3 (4) preemptions for 2 threads and <= 1 (2) for 3 threads; per-thread results must equal some sequential order of the calls (orders executed in fresh processes), no panic, no deadlock; replay divergence and uncontrolled blocking are machinery errors.",
    note="Sound because the crate is unsafe-free and shares state only through Mutex/OnceCell (driver greps for anything else); sequential consistency assumed; std Mutex and once_cell trusted; <= 3 threads, <= 2 calls each. The non-atomicity of one evaluation against two registrations is a recorded known finding (W5).", design="§4 C13"),
 }
 
